@@ -7,7 +7,7 @@ import common, gen, runner, smtlib, certify, extsolve
 THEOREMS8 = ["Osmt.Properties.C08_checked_refutation_interpolant", "Osmt.Properties.C08_labelled_interpolation_sound", "Osmt.Properties.C08_labelled_interpolation_symbols",
              "Osmt.Properties.C08_farkas_interpolant", "Osmt.Properties.C08_farkas_interpolant_B",
              "Osmt.Properties.C08_farkas_dual_interpolant", "Osmt.Properties.C08_certified_split", "Osmt.Smt.unsat_sound"]
-THEOREMS9 = ["Osmt.Properties.C09_labelled_path_step", "Osmt.Itp.system_pairOK", "Osmt.Properties.C09_path_from_splits", "Osmt.Properties.C08_certified_split", "Osmt.Smt.unsat_sound"]
+THEOREMS9 = ["Osmt.Properties.C09_labelled_path_step", "Osmt.Properties.C09_farkas_path_leaf", "Osmt.Itp.system_pairOK", "Osmt.Properties.C09_path_from_splits", "Osmt.Properties.C08_certified_split", "Osmt.Smt.unsat_sound"]
 LOGICS = ["QF_UF", "QF_LRA", "QF_LIA", "QF_LRA", "QF_UF", "QF_LIA"]
 
 
